@@ -25,6 +25,9 @@ NA = {
 
 # property -> (category, technique, level text, level note, design ref)
 CLAIMED = {
+    "C28": ("model_checking", "real Mappings accessors executed on symbolic cells (object-dtype DataFrame), identities decided by z3",
+            "SMT over unbounded symbols: on the column sets of real 1-3 Einsum results every numeric cell is a symbol; the real energy/actions/latency/resource_usage accessors run for every per_* flag combination and z3 shows each breakdown sums to the same total, latency() is the sum over Einsums of the max over components, resource_usage() the max reservation, for all cell values.",
+            "Two stubs (_coerce_numeric identity, np.maximum -> Max). 'Equals the Total column' relies on the producer invariant Total == sum of parts (proven for one Einsum under C05, validated numerically on the real rows here). One-row frames.", "4/C28"),
     "C06": ("model_checking", "symbolic execution of the real model vs element-liveness peak over guarded time steps, decided by z3 (bounded SMT)",
             "Bounded SMT, single-Einsum mappings: for every memory the real run_model's usage formula (all inputs symbolic) is compared with the peak over time of the bits live under element liveness: reported >= peak and reported <= sum of whole tiles for all trip counts in [1,K]; reported == peak on unobstructed skeletons with trip counts in [3,K]; persistent tensors scale with n_instances; the capacity rejection is probed through the public API (size == reported accepted, size == peak-1 rejected).",
             "The fused multi-Einsum clause (reservation merging in PmappingDataframe: pandas on float columns) is NOT decided. The model adds per-holder peaks; with 1-2 trip loops or a holder interposed between a holder and the relevant loops it streams through, it reports more than the element-liveness peak (never less) - equality is therefore claimed on the stated sub-domain only. MM/MV workloads, <=4/5 loops.", "4/C06"),
